@@ -1300,12 +1300,13 @@ impl<Sink: TokenSink> XmlTokenizer<Sink> {
         // FIXME: the spec says we should error as soon as the name is finished.
         // FIXME: linear time search, do we care?
         let dup = {
-            let current_attr_name = self.current_attr_name.borrow();
-            let name = &current_attr_name[..];
+            // Compare qualified names (prefix and local part), not the raw
+            // name against the local parts of the earlier attributes.
+            let name = process_qname(self.current_attr_name.borrow().clone());
             self.current_tag_attrs
                 .borrow()
                 .iter()
-                .any(|a| &*a.name.local == name)
+                .any(|a| a.name == name)
         };
 
         if dup {
